@@ -40,6 +40,8 @@ pub enum Event {
     Heal,
     /// drop everything sent by socket `from` to socket `to`
     CutDir { from: usize, to: usize },
+    /// undo a CutDir
+    HealDir { from: usize, to: usize },
     CancelSocket(usize),
     /// make the next n poll_send calls of a socket return Pending
     SendPending { sock: usize, n: u32 },
@@ -263,6 +265,7 @@ pub fn run_with(sc: &Scenario, trace: bool, setup: impl FnOnce(&Net)) -> RunResu
                     Event::Cut => net.set_cut(true),
                     Event::Heal => net.set_cut(false),
                     Event::CutDir { from, to } => net.cut_direction(addrs[*from], addrs[*to]),
+                    Event::HealDir { from, to } => net.heal_direction(addrs[*from], addrs[*to]),
                     Event::CancelSocket(i) => socks[*i].1.cancel(),
                     Event::SendPending { sock, n } => net.make_sends_pending(addrs[*sock], *n),
                     Event::ReplayTo { sock, f } => {
